@@ -86,18 +86,20 @@ func main() {
 
 	startDeadline(env, rep)
 	facts := loadFacts(env, rep)
-	sweep(env, rep, only, facts)
+	inPhase(env, rep, "sweep", func() { sweep(env, rep, only, facts) })
 	if only == nil {
-		blockingQueues(env, rep)
-		partialWakeups(env, rep)
-		orphanConsumers(env, rep)
-		panicSafety(env, rep)
-		containerArgProbes(env, rep)
-		readLockWriterStress(env, rep, facts)
-		sequential(env, rep, rng.Fork(), fams)
-		lockstep(env, rep, fams)
-		oracleLockstep(env, rep, facts)
-		growthAndRemovers(env, rep)
+		inPhase(env, rep, "queues", func() {
+			blockingQueues(env, rep)
+			partialWakeups(env, rep)
+			orphanConsumers(env, rep)
+			containerArgProbes(env, rep)
+			readLockWriterStress(env, rep, facts)
+		})
+		inPhase(env, rep, "panic-safety", func() { panicSafety(env, rep) })
+		inPhase(env, rep, "sequential", func() { sequential(env, rep, rng.Fork(), fams) })
+		inPhase(env, rep, "lock-step", func() { lockstep(env, rep, fams) })
+		inPhase(env, rep, "oracle-lock-step", func() { oracleLockstep(env, rep, facts) })
+		inPhase(env, rep, "growth-removers", func() { growthAndRemovers(env, rep) })
 		stress(env, rep, rng.Fork(), fams)
 		race(env, rep)
 	}
@@ -143,7 +145,7 @@ func sequential(env *vh.Env, rep *vh.Report, rng *vh.Rng, fams []*family) {
 	var items []item
 	var lines []string
 	for _, f := range fams {
-		for h := 0; h < nHist && !isDead(f.typ); h++ {
+		for h := 0; h < nHist && !isDead(f.typ) && !(h >= 20 && phaseOver()); h++ {
 			n := 1 + rng.Intn(nOps)
 			it := item{f: f}
 			tgt := f.newTarget()
@@ -238,7 +240,27 @@ type stressFail struct {
 	Hist    []hop  `json:"history"`
 }
 
+// end of the stress phase (parent: from the phase budget; child: from -deadline)
+var stressEnd time.Time
+var stressStart time.Time
+
+func stressTypeEnd(i, n int) time.Time {
+	end := stressEnd
+	if *childDeadline > 0 {
+		end = time.Unix(*childDeadline, 0)
+	}
+	if end.IsZero() {
+		return end
+	}
+	if stressStart.IsZero() {
+		stressStart = time.Now()
+	}
+	total := end.Sub(stressStart)
+	return stressStart.Add(total * time.Duration(i+1) / time.Duration(n))
+}
+
 type stressOut struct {
+	Cut     int            `json:"types_cut_short"`
 	Rounds  int            `json:"rounds"`
 	Overlap int            `json:"overlapping"`
 	Ops     map[string]int `json:"ops"`
@@ -270,10 +292,13 @@ func runStress(thorough bool, seed uint64, fams []*family, mark func(string)) *s
 	if thorough {
 		rounds = 500
 	}
-	for _, f := range fams {
+	for fi, f := range fams {
 		if isDead(f.typ) {
 			continue
 		}
+		// the stress phase's budget is divided evenly over the types, so that a busy machine thins out
+		// every type's rounds instead of dropping the last types
+		typeEnd := stressTypeEnd(fi, len(fams))
 		mark("##STRESS " + f.typ)
 		directed := directedRounds(f)
 		nDirected := 120
@@ -281,6 +306,10 @@ func runStress(thorough bool, seed uint64, fams []*family, mark func(string)) *s
 			nDirected = 600
 		}
 		for rd := 0; rd < rounds+nDirected*len(directed); rd++ {
+			if !typeEnd.IsZero() && time.Now().After(typeEnd) {
+				out.Cut++
+				break
+			}
 			nG := 2 + rng.Intn(3)
 			nOps := 2 + rng.Intn(4)
 			if thorough {
@@ -456,13 +485,29 @@ func machineSchedule(f *family, hist []hop, w []int, facts []string) (string, st
 	return "X" + f.drvPrefix + " " + strings.Join(acts, ";"), strings.Join(rets, ";")
 }
 
+func stressBudget(env *vh.Env) time.Duration {
+	if env.Thorough {
+		return phaseBudgets["stress"][1]
+	}
+	return phaseBudgets["stress"][0]
+}
+
 func stress(env *vh.Env, rep *vh.Report, rng *vh.Rng, fams []*family) {
+	ph := phaseBegin(env, "stress")
+	defer ph.finish(rep)
+	if *childDeadline == 0 {
+		stressEnd = ph.end
+	}
 	var out *stressOut
 	if env.Thorough && raceEnabled {
 		out = childStress(env, rep) // under the race detector, in a child
 	}
 	if out == nil {
 		out = runStress(env.Thorough, env.Seed, fams, func(string) {})
+	}
+	if out.Cut > 0 {
+		ph.cut = true
+		rep.CountN("stress:types-cut-short", out.Cut)
 	}
 	rep.CountN("stress:rounds", out.Rounds)
 	rep.CountN("stress:rounds-with-overlap", out.Overlap)
